@@ -126,8 +126,9 @@ TrendVerdict(t) ==
   IF ~(n >= 2 /\ Len(t.res) = n /\ \A i \in 1..(n-1) : t.seps[i] > t.seps[i+1]) THEN "OOD separations not decreasing" ELSE
   IF ~(t.bmax < t.iso) THEN "OOD level set reaches the sampling box" ELSE
   IF t.exc # "" THEN "REJECT Raised" \o KnownGetCmap(t) ELSE
-  IF \E i \in 1..(n-1) : 4 * t.res[i+1] > 5 * t.res[i] THEN "REJECT LevelResidualTrend" ELSE
-  IF 2 * t.res[n] > t.res[1] THEN "REJECT LevelResidualConverges" ELSE
+  \* written without products: a grossly wrong surface has residuals near 2^30 and 5 * res would overflow TLC's integers
+  IF \E i \in 1..(n-1) : t.res[i+1] - t.res[i] > t.res[i] \div 4 THEN "REJECT LevelResidualTrend" ELSE
+  IF t.res[n] > t.res[1] - t.res[n] THEN "REJECT LevelResidualConverges" ELSE
   "ACCEPT"
 
 Static(t) == CASE t.kind = "mc" -> McStatic(t)
